@@ -272,6 +272,7 @@ type vAbTap struct {
 	mu     sync.Mutex
 	blocks []vTapBlock
 	frames int
+	slowAt int // > 0: block processing pauses 25 ms at this block count (and at three times it)
 }
 
 type vTapBlock struct {
@@ -300,6 +301,14 @@ func vCopyBlock(b *dataBlock) vTapBlock {
 }
 
 func (t *vAbTap) ProcessSegments(b *dataBlock) error {
+	if t.slowAt > 0 {
+		t.mu.Lock()
+		n := len(t.blocks)
+		t.mu.Unlock()
+		if n == t.slowAt || n == 3*t.slowAt {
+			time.Sleep(25 * time.Millisecond) // a slow consumer: the reader gets many ticks ahead; blocks already handed over must stay what they were
+		}
+	}
 	tb := vCopyBlock(b)
 	t.mu.Lock()
 	t.blocks = append(t.blocks, tb)
@@ -564,6 +573,10 @@ func vRunAbacoOnce(c *vCase, s *vAbScript, rep int) {
 		as.producers = append(as.producers, &vAbProducer{run: run, id: p})
 	}
 	tap := &vAbTap{AbacoSource: as}
+	if c.Idx%3 == 0 {
+		tap.slowAt = 2 + c.R.Intn(6)
+		c.Cov("runs_with_slow_consumer", 1)
+	}
 	queued := make(chan func())
 	if err := Start(tap, queued, 4, 16); err != nil {
 		c.Violate("c03:start-failed", "Start on a well-formed scripted stream failed: %v\n%s", err, s)
